@@ -165,7 +165,12 @@ def diff_kind(want, got):
     return "text-shown-but-inactive" if extra and not missing else ("text-not-shown" if missing and not extra else "regions-differ")
   for rid in sorted(want):
     loose = any(r.loose for r in want[rid])
-    a, b = normalise(want[rid], loose), normalise(got[rid], loose)
+    wr, gr = want[rid], got[rid]
+    skip = sorted({k for r in wr if r.props for k, v in r.props.items() if v is None and k != "textAlign"})
+    if skip:      # properties the oracle does not assert in this region
+      wr = [S.Run((r.text, r.role, r.lang, None if r.props is None else {k: v for k, v in r.props.items() if k not in skip}, r.loose)) for r in wr]
+      gr = [S.Run((r.text, r.role, r.lang, None if r.props is None else {k: v for k, v in r.props.items() if k not in skip}, r.loose)) for r in gr]
+    a, b = normalise(wr, loose), normalise(gr, loose)
     if a == b:
       continue
     ta, tb = [x[0] for x in a], [x[0] for x in b]
